@@ -22,6 +22,18 @@ func NewTarWriter(w io.Writer) TarWriter {
 	return TarWriter{gnutar.NewWriter(w), gnutar.FormatGNU}
 }
 
+// writeHeader writes the header of an entry. The GNU format can't carry extended
+// attributes, so entries that have some are written in PAX format (which GNU tar
+// reads) instead of failing. PAX has no room for Go's file mode bits, such entries
+// get the permission and set-id/sticky bits in their Unix positions.
+func (fs TarWriter) writeHeader(hdr *gnutar.Header, mode os.FileMode) error {
+	if len(hdr.Xattrs) > 0 {
+		hdr.Format = gnutar.FormatPAX
+		hdr.Mode = int64(FilemodeToStatMode(mode) & 07777)
+	}
+	return fs.w.WriteHeader(hdr)
+}
+
 func (fs TarWriter) CreateDir(n NodeDirectory) error {
 	hdr := &gnutar.Header{
 		Typeflag: gnutar.TypeDir,
@@ -33,7 +45,7 @@ func (fs TarWriter) CreateDir(n NodeDirectory) error {
 		Xattrs:   n.Xattrs,
 		Format:   fs.format,
 	}
-	return fs.w.WriteHeader(hdr)
+	return fs.writeHeader(hdr, n.Mode)
 }
 
 func (fs TarWriter) CreateFile(n NodeFile) error {
@@ -48,7 +60,7 @@ func (fs TarWriter) CreateFile(n NodeFile) error {
 		Xattrs:   n.Xattrs,
 		Format:   fs.format,
 	}
-	if err := fs.w.WriteHeader(hdr); err != nil {
+	if err := fs.writeHeader(hdr, n.Mode); err != nil {
 		return err
 	}
 	_, err := io.Copy(fs.w, n.Data)
@@ -67,7 +79,7 @@ func (fs TarWriter) CreateSymlink(n NodeSymlink) error {
 		Xattrs:   n.Xattrs,
 		Format:   fs.format,
 	}
-	return fs.w.WriteHeader(hdr)
+	return fs.writeHeader(hdr, n.Mode)
 }
 
 func (fs TarWriter) CreateDevice(n NodeDevice) error {
@@ -86,7 +98,7 @@ func (fs TarWriter) CreateDevice(n NodeDevice) error {
 		Devmajor: int64(n.Major),
 		Devminor: int64(n.Minor),
 	}
-	return fs.w.WriteHeader(hdr)
+	return fs.writeHeader(hdr, n.Mode)
 }
 
 func (fs TarWriter) Close() error {
